@@ -57,8 +57,10 @@ DEFAULT_WINDOW_C = (20.0, 600.0)
 DEFAULT_WINDOW_C_THOROUGH = (0.0, 1200.0)
 EXP_KEYS = ("linear expansion percent", "linear expansion")
 RHO_KEYS = ("density", "pseudoDensity")
-EDGE = 1e-6   # the two end points of a range are approached to within EDGE*(hi-lo): float rounding of an end
-#               point (e.g. sodium's range ends exactly at a square-root branch point) is outside the technique
+EDGE = 1e-6   # the SYMBOLIC temperature approaches the two end points of a range to within EDGE*(hi-lo): what a law
+#               does AT an end point depends on float rounding (sodium's range ends exactly at a square-root branch
+#               point), which reals do not model; the end points themselves are evaluated on plain floats
+#               (check_spot_values)
 
 
 def _discover():
@@ -167,6 +169,104 @@ def check_composition(ctx, mat, m):
     ctx.check("the default mass fractions sum to one within 1e-5" + ("" if ok else ": %s sums to %r" % (mat, total)), ok)
 
 
+# (6) Sodium.pseudoDensity / density return a COMPLEX number exactly at the upper end of the stated density range when
+#     the temperature is given in Celsius: the range ends at the critical temperature (2230.55 C = 2503.7 K), where
+#     1 - (Tc + 273.15) / 2503.7 is -2.2e-16 in floating point, and its square root (** 0.5) is complex.  Reproduction:
+#     armi.materials.Sodium().pseudoDensity(Tc=2230.55) == (0.219+3.1e-09j)   (Tk=2503.7 gives 0.219).
+#     (Tk=2503.7 gives 0.219; Tk=2230.55 + 273.15, one ulp higher, is complex again.)  Reported by an independent
+#     engineer on the unchanged tree; with the flag set a complex value with a positive real part and a negligible
+#     imaginary part is tolerated at that one temperature; every other spot value of Sodium is live.
+KNOWN_DEFECT_sodium_complex_at_upper_end = True
+COMPLEX_AT = {("Sodium", "pseudoDensity", "upper end"), ("Sodium", "density", "upper end")}
+
+
+def _stated(cls, keys, default):
+    """((lo, hi), unit, key) of the first stated range among keys as the class states it (no conversion)."""
+    pv = cls.propertyValidTemperature or {}
+    for k in keys:
+        if k in pv:
+            (lo, hi), unit = pv[k]
+            return (float(lo), float(hi)), ("K" if unit.strip().upper().startswith("K") else "C"), k
+    return None
+
+
+def spot_temperatures(cls, keys, other, default):
+    """Plain temperatures AT which the law is evaluated: both end points of the stated range and its middle, and 0 in
+    the stated unit and 0 C when they lie in the closed range.  Returns [(where, Tc, Tk)] with the stated-unit value
+    exact and the other one converted."""
+    st = _stated(cls, keys, default) or _stated(cls, other, default)
+    if st is None:
+        # the class states no range: the default window is this harness's choice, not a statement of the material
+        # (SaturatedSteam has no density above the critical point, inside the thorough window), so nothing is
+        # claimed about its end points
+        return [], "C"
+    (lo, hi), unit, _ = st
+    pts = [("lower end", lo), ("upper end", hi), ("middle", 0.5 * (lo + hi))]
+    zeros = [0.0] + ([273.15] if unit == "K" else [])
+    pts += [("zero Celsius" if (z != 0.0 or unit == "C") else "zero Kelvin", z) for z in zeros if lo < z < hi]
+    out = []
+    for where, t in pts:
+        out.append((where, t - 273.15, t) if unit == "K" else (where, t, t + 273.15))
+    return out, unit
+
+
+def check_spot_values(ctx, mat, cls, default):
+    """"finite positive density and finite expansion at EVERY temperature in its stated range": the end points belong
+    to the range.  The symbolic temperature above covers the laws the proxies can pass (polynomials, tables, square
+    roots); here every law -- those with exp / log / fractional powers included -- is evaluated on plain floats at
+    both end points and the middle of the stated range, once with the temperature given in Celsius and once in
+    Kelvin.  All values are concrete: the same in the symbolic runs and in the replays."""
+    import numbers
+
+    laws = [("linearExpansionPercent", EXP_KEYS, RHO_KEYS, False), ("linearExpansion", EXP_KEYS, RHO_KEYS, False),
+            ("pseudoDensity", RHO_KEYS, EXP_KEYS, True), ("density", RHO_KEYS, EXP_KEYS, True)]
+    for law, keys, other, positive in laws:
+        pts, unit = spot_temperatures(cls, keys, other, default)
+        if not pts:
+            continue
+        bad, notPositive, defined = [], [], True
+        for where, tc, tk in pts:
+            for style, kw in (("C", dict(Tc=tc)), ("K", dict(Tk=tk))):
+                m = cls()
+                call = "%s(%s=%r) [%s of the range, given in %s]" % (law, "Tc" if style == "C" else "Tk",
+                                                                    kw["Tc" if style == "C" else "Tk"], where, style)
+                try:
+                    v = getattr(m, law)(**kw)
+                except NotImplementedError:
+                    defined = False           # the class does not define this law
+                    break
+                except Exception as e:  # noqa: any refusal inside the stated range is the finding
+                    bad.append("%s raised %r" % (call, e))
+                    continue
+                if (KNOWN_DEFECT_sodium_complex_at_upper_end and (mat, law, where) in COMPLEX_AT
+                        and isinstance(v, complex) and abs(v.imag) < 1e-6 and v.real > 0.0):
+                    ctx.note("KNOWN_DEFECT_sodium_complex_at_upper_end: %s returns %r" % (call, v))
+                    continue
+                if isinstance(v, bool) or not isinstance(v, numbers.Real) or not math.isfinite(float(v)):
+                    bad.append("%s returned %r" % (call, v))
+                    continue
+                zero = (law == "pseudoDensity" and mat in ZERO_PSEUDO_DENSITY) or (law == "density" and mat in ZERO_DENSITY)
+                if positive and zero:
+                    if float(v) != 0.0:       # recorded finding: identically zero; anything else is new
+                        notPositive.append("%s is recorded as 0, returned %r" % (call, v))
+                elif positive and not float(v) > 0.0:
+                    notPositive.append("%s returned %r" % (call, v))
+                elif law == "linearExpansionPercent" and not -100.0 < float(v) < 100.0:
+                    notPositive.append("%s returned %r" % (call, v))
+            if not defined:
+                break
+        if not defined:
+            continue
+        ctx.check("spot values: %s is a finite real number at both end points and the middle of its stated range, "
+                  "temperature given in C and in K" % law + ("" if not bad else ": " + "; ".join(bad[:3])), not bad)
+        if positive:
+            ctx.check("spot values: %s is positive there (identically zero where recorded)" % law
+                      + ("" if not notPositive else ": " + "; ".join(notPositive[:3])), not notPositive)
+        elif law == "linearExpansionPercent":
+            ctx.check("spot values: -100 < linearExpansionPercent < 100 there"
+                      + ("" if not notPositive else ": " + "; ".join(notPositive[:3])), not notPositive)
+
+
 def _finite(x):
     """A proxy is a real number by construction (division by zero / domain errors surface as exceptions, which the
     engine replays on plain numbers); a plain float is tested."""
@@ -205,7 +305,9 @@ def _instances(default):
                        "Void/Custom/_Mixture placeholders are listed in the notes); temperature symbolic over the "
                        "interior of the class's stated range for the property (propertyValidTemperature; the "
                        "expansion range is used for a density without own range and vice versa; a default window "
-                       "of 20..600 C, thorough 0..1200 C, when the class states none)",
+                       "of 20..600 C, thorough 0..1200 C, when the class states none); plus plain-float "
+                       "evaluation of every law AT both end points and the middle of a STATED range (and at 0 C / "
+                       "0 K when inside), temperature given in Celsius and in Kelvin",
          stubs=STUBS, qtimeout_ms=20000, max_paths=600,
          instances={"quick": _instances(DEFAULT_WINDOW_C), "thorough": _instances(DEFAULT_WINDOW_C_THOROUGH)})
 def material_law_is_finite_and_density_positive(ctx, mat, default):
@@ -221,6 +323,7 @@ def material_law_is_finite_and_density_positive(ctx, mat, default):
     for name, why in sorted(SKIPPED.items()):
         ctx.note("no material law of its own: %s (%s)" % (name, why))
     check_composition(ctx, mat, m)          # "... refers only to known nuclides with mass fractions summing to one"
+    check_spot_values(ctx, mat, cls, default)   # "... at every temperature in its stated range": the end points too
     covered = []
     canary = [ctx.canary]
 
